@@ -142,9 +142,11 @@ __CPROVER_requires(TABLE_OK && W_attr_index < G_N && W_kind >= 0 && W_kind <= 2 
 __CPROVER_requires(G_conn_sec.is_encrypted == W_enc && (int)G_conn_sec.pairing_status == W_ps)
 /* C08: a notification / indication is never longer than the negotiated MTU (nor than the buffer) */
 __CPROVER_ensures(*out_size <= BT_MIN((size_t)BT_MIN(W_server_mtu, W_client_mtu), W_out_size))
+#ifdef C10_CLAUSES
 /* C10: nothing is sent unless the dequeued characteristic's CCCD has the matching bit set for this connection */
 __CPROVER_ensures((W_kind == notification_queue_entry_type_empty || (W_flags & (W_kind == notification_queue_entry_type_notification ? 1 : 2)) == 0) ==> (*out_size == 0 && G_acc_calls == 0))
 __CPROVER_ensures(W_kind != notification_queue_entry_type_empty ==> (G_fnd_arg == W_cfg_index && G_flags_arg == W_ccc_index))
+#endif
 /* the value is read through the attribute's access function with this connection's security attributes (C05) into the room behind the 3 byte header */
 __CPROVER_ensures(G_acc_calls == 1 ==> (G_acc_index == W_attr_index && G_acc_type == attribute_access_type_read && G_acc_off == 0 && G_acc_buf == output + 3
                                          && G_acc_enc == W_enc && G_acc_ps == W_ps))
@@ -153,10 +155,12 @@ __CPROVER_ensures(G_acc_calls <= 1)
 __CPROVER_ensures(*out_size != 0 ==> (OUT_SENT && output[0] == (W_kind == notification_queue_entry_type_notification ? 0x1B : 0x1D) && output[1] == (W_handle & 0xff) && output[2] == (W_handle >> 8)
                                        && G_hbi_arg == W_attr_index && *out_size == 3 + G_acc_out_size))
 __CPROVER_ensures(OUT_SENT ==> *out_size != 0)
+#ifdef C11_CLAUSES
 /* C11: dequeuing an indication makes it the outstanding one (C12). If it is then NOT sent - not subscribed, value not readable - no confirmation will ever come: it is taken as confirmed, or every later
    indication of this connection would wait for ever. In every other case the outstanding indication is not touched from here, nor is the queue in any other way */
 __CPROVER_ensures(G_confirmed == ((W_kind == notification_queue_entry_type_indication && *out_size == 0) ? 1 : 0))
 __CPROVER_ensures(G_queue_mutations == 0)
+#endif
 __CPROVER_assigns(*out_size, __CPROVER_object_upto(output, W_out_size), G_fnd_arg, G_flags_arg, G_hbi_arg, G_queue_mutations, G_confirmed,
                   G_acc)
 {{l2cap_output}}
